@@ -126,4 +126,5 @@ func registerAll() {
 	registerC01()
 	registerProc()
 	registerC10()
+	registerC08()
 }
